@@ -125,7 +125,8 @@ class Fn:
     YIELD = {"arith": "intstr", "cmp": "bool", "eq": "bool", "tuple": "tup", "slice": "sl", "strlen": "int", "length": "int", "head": "any",
              "fst": "any", "snd": "any", "map": "sl", "append": "sl", "push": "sl", "applyf": "any", "rec": "named", "ctor": "named",
              "ipair": "tup", "iid": "any", "iswap": "tup", "iconst": "int", "concat": "str", "sprintf": "str",
-             "gbox": "named", "gsome": "named", "iwrap": "named", "iunbox": "int", "ioptlen": "int"}
+             "gbox": "named", "gsome": "named", "iwrap": "named", "iunbox": "int", "ioptlen": "int",
+             "ifx": "any", "pipe": "any", "pappmap": "sl", "applyl": "any", "fold": "int", "filter": "sl"}
 
     def generic_value(self, d, arg_want):
         """an expression of type IBox<t> / IOpt<t> (kind chosen by the caller through arg_want = ("IBox"|"IOpt", base or None))"""
@@ -291,6 +292,61 @@ class Fn:
             b, tb, xb = E()
             self.eq(ta, INT)
             return "iconst %s %s" % (self.atom(a), self.atom(b)), INT, call("iconst", xa, xb)
+        if o == "ifx":
+            c, tc, xc = E(BOOL)
+            a, ta, xa = E(want)
+            b, tb, xb = E(ta if ta in (INT, STR, BOOL) else want)
+            self.eq(tc, BOOL)
+            self.eq(ta, tb)
+            return "if %s then %s else %s" % (c, self.atom(a), self.atom(b)), ta, ["if", xc, xa, xb]
+        if o == "pipe":
+            a, ta, xa = E()
+            k = rng.choice(["length", "fst", "iid", "append", "head"])
+            if k == "length":
+                e = self.fresh()
+                self.eq(ta, sl(e))
+                return "%s |> slice.Length" % self.atom(a), INT, ["pipe", xa, "slice.Length", []]
+            if k == "head":
+                e = self.fresh()
+                self.eq(ta, sl(e))
+                return "%s |> slice.Head" % self.atom(a), e, ["pipe", xa, "slice.Head", []]
+            if k == "fst":
+                f1, f2 = self.fresh(), self.fresh()
+                self.eq(ta, tup(f1, f2))
+                return "%s |> frt.Fst" % self.atom(a), f1, ["pipe", xa, "frt.Fst", []]
+            if k == "iid":
+                return "%s |> iid" % self.atom(a), ta, ["pipe", xa, "iid", []]
+            b, tb, xb = E()
+            e = self.fresh()
+            self.eq(tb, sl(e))
+            self.eq(ta, sl(e))
+            return "%s |> slice.Append %s" % (self.atom(a), self.atom(b)), sl(e), ["pipe", xa, "slice.Append", [xb]]
+        if o == "pappmap":
+            # a partial application passed to slice.Map
+            a, ta, xa = E()
+            e = self.fresh()
+            self.eq(ta, sl(e))
+            if rng.random() < 0.5:
+                return "slice.Map (iconst %d) %s" % (rng.randint(0, 9), self.atom(a)), sl(INT), call("slice.Map", ["papp", "iconst", [LIT["int"]]], xa)
+            b, tb, xb = self.expr(0)
+            return "slice.Map (ipair %s) %s" % (self.atom(b), self.atom(a)), sl(tup(tb, e)), call("slice.Map", ["papp", "ipair", [xb]], xa)
+        if o == "applyl":
+            # a local lambda is monomorphic: every application constrains the same parameter type
+            if not self.funlocals:
+                return self.expr(d - 1, want)
+            g, tg, xg = rng.choice(self.funlocals)
+            a, ta, xa = E()
+            r = self.fresh()
+            self.eq(tg, fn([ta], r))
+            return "%s %s" % (g, self.atom(a)), r, ["app", g, [xa]]
+        if o == "fold":
+            a, ta, xa = E()
+            self.eq(ta, sl(INT))
+            return "slice.Fold (fun acc x -> acc + x) 0 %s" % self.atom(a), INT, call("slice.Fold", ["lamn", ["acc", "x"], call("int+", V("acc"), V("x"))], LIT["int"], xa)
+        if o == "filter":
+            a, ta, xa = E()
+            self.eq(ta, sl(INT))
+            return "slice.Filter (fun x -> x > 1) %s" % self.atom(a), sl(INT), call("slice.Filter", ["lam", "x", call("cmp", V("x"), LIT["int"])], xa)
         if o in ("gbox", "gsome", "iwrap"):
             return self.generic_value(d - 1, ("IOpt" if o == "gsome" else "IBox", None))
         if o in ("iunbox", "ioptlen"):
@@ -587,6 +643,14 @@ def render_ast(e):
         return "fun %s -> %s" % (e[1], render_ast(e[2]))
     if k == "fld":
         return "%s.%s" % (render_ast(e[1]), e[2])
+    if k == "if":
+        return "if %s then %s else %s" % (render_ast(e[1]), arg(e[2]), arg(e[3]))
+    if k == "pipe":
+        return "%s |> %s" % (arg(e[1]), " ".join([e[2]] + [arg(x) for x in e[3]]))
+    if k == "papp":
+        return " ".join([e[1]] + [arg(x) for x in e[2]])
+    if k == "lamn":
+        return "fun %s -> %s" % (" ".join(e[1]), render_ast(e[2]))
     raise ValueError(k)
 
 
